@@ -43,6 +43,10 @@ def main():
             tests += re.findall(r"^func (Test\w+)\(", open(os.path.join(src, f)).read(), re.M)
         placed = [os.path.join(pkgdir, f.replace("_test.go", "_zzseed_test.go")) for f in demos if f.endswith("_test.go")]
         ov = {"Replace": {p: "" for p in glob.glob(pkgdir + "/*_test.go") if p not in placed}}
+        # packages whose own tests compile at baseline keep them (a demonstration may use their helpers)
+        rc0, _ = sh(["go", "test", "-vet=off", "-count=1", "-run", "^$", "./" + pkg + "/"], cwd=wt)
+        if rc0 == 0:
+            ov = {"Replace": {}}
         ovp = "/tmp/seedtry/%s/overlay.json" % sid
         json.dump(ov, open(ovp, "w"))
         run = ["go", "test", "-vet=off", "-count=1", "-overlay", ovp, "-run", "^(" + "|".join(tests) + ")$", "./" + pkg + "/"]
